@@ -17,26 +17,22 @@ package outlierdetection
 // multiplier twice), so "not ejected yet" is a precondition that every call
 // site has to establish.
 
-// subchannel wrappers of an endpoint are created by NewSubConn with the
-// balancer's update buffer
-//@ spec func swsOK(epInfo *endpointInfo) bool {
-//@   return forall(func(j int) bool { return implies(0 <= j && j < len(epInfo.sws), epInfo.sws[j] != nil && epInfo.sws[j].scUpdateCh != nil) })
-//@ }
-
+// eject / uneject queue an ejection update for this wrapper, marked ejected
+// resp. not ejected, on the balancer's update buffer (handled by
+// handleEjection / handleUnejection below).
 //@ func (*subConnWrapper).eject
 //@   prop C40
-//@   requires scw != nil && scw.scUpdateCh != nil
+//@   assert at call Put#1 arg1.(*ejectionUpdate).scw == scw && arg1.(*ejectionUpdate).isEjected
 
 //@ func (*subConnWrapper).uneject
 //@   prop C40
-//@   requires scw != nil && scw.scUpdateCh != nil
+//@   assert at call Put#1 arg1.(*ejectionUpdate).scw == scw && !arg1.(*ejectionUpdate).isEjected
 
 //@ func (*outlierDetectionBalancer).ejectEndpoint
 //@   prop C40
 //@   modifies b.numEndpointsEjected, epInfo.latestEjectionTimestamp, epInfo.ejectionTimeMultiplier
-//@   requires b != nil && epInfo != nil && swsOK(epInfo)
+//@   requires b != nil && epInfo != nil
 //@   requires epInfo.latestEjectionTimestamp.IsZero()
-//@   loop 1 invariant swsOK(epInfo)
 //@   loop 1 invariant b.numEndpointsEjected == old(b.numEndpointsEjected) + 1 && epInfo.ejectionTimeMultiplier == old(epInfo.ejectionTimeMultiplier) + 1 && epInfo.latestEjectionTimestamp == b.timerStartTime
 //@   ensures b.numEndpointsEjected == old(b.numEndpointsEjected) + 1
 //@   ensures epInfo.ejectionTimeMultiplier == old(epInfo.ejectionTimeMultiplier) + 1
@@ -45,9 +41,8 @@ package outlierdetection
 //@ func (*outlierDetectionBalancer).unejectEndpoint
 //@   prop C40
 //@   modifies b.numEndpointsEjected, epInfo.latestEjectionTimestamp
-//@   requires b != nil && epInfo != nil && swsOK(epInfo)
+//@   requires b != nil && epInfo != nil
 //@   requires !epInfo.latestEjectionTimestamp.IsZero()
-//@   loop 1 invariant swsOK(epInfo)
 //@   loop 1 invariant b.numEndpointsEjected == old(b.numEndpointsEjected) - 1 && epInfo.latestEjectionTimestamp.IsZero()
 //@   ensures b.numEndpointsEjected == old(b.numEndpointsEjected) - 1
 //@   ensures epInfo.latestEjectionTimestamp.IsZero()
@@ -62,7 +57,7 @@ package outlierdetection
 //@   return e.callCounter.inactiveBucket.numSuccesses + e.callCounter.inactiveBucket.numFailures
 //@ }
 //@ spec func epOK(e *endpointInfo) bool {
-//@   return e != nil && e.callCounter != nil && e.callCounter.inactiveBucket != nil && swsOK(e)
+//@   return e != nil && e.callCounter != nil && e.callCounter.inactiveBucket != nil
 //@ }
 //@ spec func allAtLeast(eps []*endpointInfo, rv uint32) bool {
 //@   return forall(func(j int) bool { return implies(0 <= j && j < len(eps), epOK(eps[j]) && rvOf(eps[j]) >= rv) })
